@@ -8,6 +8,7 @@
 package simsync
 
 import (
+	"runtime"
 	"sync"
 	"unsafe"
 
@@ -81,6 +82,16 @@ type Mutex struct {
 func (m *Mutex) Lock() {
 	if r := zsim.Active(); r != nil {
 		r.Acquire(unsafe.Pointer(m), false)
+	} else if zsim.Unwinding() {
+		// The run is being torn down (a simulated process kill, a violation):
+		// tasks parked at yield points are unwound where they stand, also those
+		// that hold a mutex their code releases without defer. A goroutine still
+		// running that meets such a mutex would wait for ever on a primitive the
+		// bubble cannot see through; it is unwound as well.
+		if !m.mu.TryLock() {
+			runtime.Goexit()
+		}
+		return
 	}
 	m.mu.Lock()
 }
@@ -120,6 +131,11 @@ type RWMutex struct {
 func (m *RWMutex) Lock() {
 	if r := zsim.Active(); r != nil {
 		r.Acquire(unsafe.Pointer(m), false)
+	} else if zsim.Unwinding() { // see Mutex.Lock
+		if !m.mu.TryLock() {
+			runtime.Goexit()
+		}
+		return
 	}
 	m.mu.Lock()
 }
@@ -140,6 +156,11 @@ func (m *RWMutex) Unlock() {
 func (m *RWMutex) RLock() {
 	if r := zsim.Active(); r != nil {
 		r.Acquire(unsafe.Pointer(m), true)
+	} else if zsim.Unwinding() { // see Mutex.Lock
+		if !m.mu.TryRLock() {
+			runtime.Goexit()
+		}
+		return
 	}
 	m.mu.RLock()
 }
